@@ -326,15 +326,33 @@ impl IVP for SimIVP {
     }
 
     fn event_config(&self, i: usize) -> EventConfig {
+        // built through the public builder methods, the way user code does it (a struct literal
+        // would leave `terminal()`, `positive()`, ... unexercised); even-numbered event functions use
+        // the convenience forms, odd-numbered ones the general setters
         let e = &self.events[i];
-        EventConfig {
-            direction: match e.dir {
+        let mut c = EventConfig::new();
+        if i % 2 == 0 {
+            match e.dir {
+                Dir::All => c.all(),
+                Dir::Pos => c.positive(),
+                Dir::Neg => c.negative(),
+            }
+            match e.terminal {
+                Some(1) => c.terminal(),
+                Some(n) => c.terminal_count(n),
+                None => {}
+            }
+        } else {
+            c.direction(match e.dir {
                 Dir::All => Direction::All,
                 Dir::Pos => Direction::Positive,
                 Dir::Neg => Direction::Negative,
-            },
-            terminal_count: e.terminal,
+            });
+            if let Some(n) = e.terminal {
+                c.terminal_count(n);
+            }
         }
+        c
     }
 }
 
